@@ -29,6 +29,18 @@ CLAIMED = {
         design_ref="DESIGN.md section 6 C02",
         note=_SYNC_NOTE,
         technique="TLA+ property layer (SyncOutcome: Changed/Needed/Exception/Kept) + TLC trace validation of real sync histories"),
+    "C04": dict(
+        text="Fault enumeration on the real code judged by TLC: a fault-free run of each scenario (5-file tree into empty and dirty destinations, "
+             "300-file fan-out with a slow DATA path so that >132 requests stay outstanding) counts the operations of every kind; then every "
+             "(kind, index) is injected once - stream failure at SendMsg/RecvMsg #k on either endpoint, cancellation at operation #k, walk error "
+             "at entry k, open/read error of file k after j bytes, hasher/notify callback error at call k - followed by a fault-free follow-up "
+             "transfer into the leftovers. SyncTrace.tla judges: no success without FIN / FIN echo, receive success implies convergence, both "
+             "calls return once the stream is torn down (quiescence watchdog, hang confirmed by two goroutine dumps), no goroutine with fsutil "
+             "frames left, follow-up converges.",
+        category="fault_enumeration",
+        design_ref="DESIGN.md section 6 C04",
+        note=_SYNC_NOTE + " SIGKILL of the receiving process is not covered (receiver runs in-process).",
+        technique="TLA+ trace monitor (SyncTrace: return rules, hang/leak events, outcome) over exhaustive single-fault enumeration of real Send/Receive"),
     "C05": dict(
         text="For every sync of the C01 pairs and C02 histories TLC checks the notification log against spec/Notify.tla: applying the events "
              "to a model of the old destination yields the new one, every identity-changed path reported exactly once with the stat as sent, "
@@ -56,6 +68,16 @@ CLAIMED = {
         design_ref="DESIGN.md section 6 C07",
         note=_SYNC_NOTE,
         technique="TLA+ role automaton (SyncTrace: receiver role) + TLC trace validation of real Receive against a reference sender"),
+    "C08": dict(
+        text="A fixed (source, prior destination) pair with >= 12 multi-chunk files in flight is transferred by the real code under many "
+             "schedules (stream capacities 0..64, seeded per-operation delays before and after every stream operation, GOMAXPROCS 1/2/4/16); TLC "
+             "validates every schedule's execution against the same deterministic property-layer outcome (final tree, REQ set, notifications "
+             "with digests), so outcomes are equal across schedules up to the hard-link exception; an overlap detector inside the harness "
+             "stream logs concurrent SendMsg/RecvMsg calls; a second build with the Go race detector runs the same schedules and reports "
+             "with fsutil frames are injected as Race events.",
+        design_ref="DESIGN.md section 6 C08",
+        note=_SYNC_NOTE + " Data-race freedom is judged by the Go race detector, not by TLA+ (DESIGN.md section 7).",
+        technique="TLA+ trace monitor (SyncTrace outcome + Overlap/Race events) over seeded schedule exploration of real Send/Receive, plus Go race detector"),
     "C12": dict(
         text="TLC proves, for every change sequence up to the bound over a hostile path alphabet, that the transcribed Validator "
              "(alg) accepts exactly what the property-layer ValidStream accepts and rejects at the same index, and that the "
